@@ -61,6 +61,16 @@ def apply_breach(case, solution, b):
         if cls == 'LimitDistance': lim['maxDistance'] = float(tour['statistic']['distance'] - 2)
         elif cls == 'LimitDuration': lim['maxDuration'] = float(tour['statistic']['duration'] - 2)
         else: lim['tourSize'] = sum(1 for st in tour['stops'] for x in st['activities'] if x['type'] not in ('departure', 'arrival')) - 1
+    elif cls == 'LimitRecharge':
+        cur, worst, prev = 0, 0, None
+        for st in tour['stops']:
+            if prev is not None:
+                cur += st['distance'] - prev
+                worst = max(worst, cur)
+                if any(x['type'] == 'recharge' for x in st['activities']):
+                    cur = 0
+            prev = st['distance']
+        vtype(tour)['shifts'][tour['shiftIndex']]['recharges']['maxDistance'] = float(worst - 2)
     elif cls == 'BreakRelation':
         t2 = S['tours'][k2 - 1]
         P['plan'].setdefault('relations', []).append({'type': 'any', 'jobs': [stop['activities'][a - 1]['jobId']], 'vehicleId': t2['vehicleId'], 'shiftIndex': t2['shiftIndex']})
@@ -87,6 +97,8 @@ def run(pid, tier):
     rnd = random.Random(seed * 2654435761 % (1 << 31))
     nsolve, nmut_recs = (260, 40) if tier == 'quick' else (4000, 700)
     cases = [pgen.make_case(rnd.randrange(1 << 30), rnd.choice(['tiny', 'small', 'small', 'medium'])) for _ in range(nsolve)]
+    # one problem in six with recharge stations (a distance budget per stretch: checker rule `check_recharge_limits`)
+    cases = [solve_oracle.add_recharge(c, rnd) if i % 6 == 5 and 'unreachable' not in c.get('features', []) else c for i, c in enumerate(cases)]
     outcomes = solve_oracle.solve(pid + '-a', cases, jobs=10)
     by_id = {c['id']: c for c in cases}
     recs = []
@@ -127,6 +139,13 @@ def run(pid, tier):
                 job = next((j for j in by_id[c['id']]['problem']['plan']['jobs'] if j['id'] == bad), {})
                 if any(len(p_.get('times') or []) > 1 for k_ in ('pickups', 'deliveries', 'replacements', 'services') for t_ in job.get(k_, []) for p_ in t_['places']):
                     kind = 'match-activities-multi-window-place'
+            if 'recharge distance violation' in ' '.join(r['errors']):
+                # the shift of a tour is resolved by time, not by shiftIndex (same root as tour-size-multishift): a tour of a shift
+                # without stations is held against the budget of another shift of its vehicle
+                tours_ = [t_ for t_ in c['solution']['tours'] if ("vehicle id '%s'" % t_['vehicleId']) in ' '.join(r['errors'])]
+                vts_ = by_id[c['id']]['problem']['fleet']['vehicles']
+                own = lambda t_: next(v_ for v_ in vts_ if t_['vehicleId'] in v_['vehicleIds'])['shifts'][t_['shiftIndex']]
+                kind = 'recharge-limit-multishift' if tours_ and any(len(next(v_ for v_ in vts_ if t_['vehicleId'] in v_['vehicleIds'])['shifts']) > 1 for t_ in tours_) else 'recharge-limit'
             if kind == 'tour-size' and any(len(v_['shifts']) > 1 for v_ in by_id[c['id']]['problem']['fleet']['vehicles']):
                 kind = 'tour-size-multishift'
             verdict.add('C12/AcceptsValid/%s' % kind, 'checker %s a solution that VrpModel finds valid (%s): %s' % (r['verdict'], c['id'], '; '.join(r['errors'])[:300]),
